@@ -300,7 +300,7 @@ Print Assumptions c16_frame_separate.
    handshake into it, wiping it), every output is exactly what the calls alone give on the
    instance made from the original values - hence, by the theorems above, standard CFB under
    the key and IV of construction.
-   (On the tree before the repair 50b8642 the block-cipher wrappers kept the caller's IV slice
+   (On the tree before the repair 154b3da the block-cipher wrappers kept the caller's IV slice
    and this failed: corpus/C16/ownership-iv.sx.) *)
 Theorem c16_owner_values : forall BC KS name keybuf ivbuf w (ops : list wop),
   wnew name keybuf ivbuf = Some w ->
